@@ -855,6 +855,79 @@ pub fn c16(big: bool) -> BoxedStrategy<Case> {
         .boxed()
 }
 
+fn reg_op(kinds: u8, weights: [u32; 7]) -> BoxedStrategy<ClientOp> {
+    let ops = [RegOp::FromRegistry, RegOp::Setup, RegOp::Register, RegOp::Replace, RegOp::Unregister, RegOp::TryFromRegistry, RegOp::AlreadyRunning];
+    let alts: Vec<(u32, BoxedStrategy<RegOp>)> = ops.iter().zip(weights).filter(|(_, w)| *w > 0).map(|(o, w)| (w, Just(*o).boxed())).collect();
+    (proptest::strategy::Union::new_weighted(alts), 0..kinds).prop_map(|(op, kind)| ClientOp::Reg { op, kind }).boxed()
+}
+
+pub fn c14(big: bool) -> BoxedStrategy<Case> {
+    let max_ops = if big { 14 } else { 9 };
+    let spawn = prop_oneof![
+        3 => Just(SpawnSpec::Register { builder: None }),
+        1 => mailbox().prop_map(|m| SpawnSpec::Register { builder: Some(m) }),
+        2 => plain_spawn(false),
+    ];
+    let cause = prop_oneof![6 => Just(Cause::None), 2 => (0u32..5).prop_map(Cause::HandlerPanic), 1 => Just(Cause::StartFail(FailHow::Err)), 1 => (1u32..8).prop_map(Cause::Cancel)];
+    // client 0: registry operations (sequential), stops, queries; the others: awaits and queries
+    let base0 = OpWeights { send: 6, call: 8, ping: 2, convert: 8, yield_: 4, sleep: 6, give: 2, drop: 3, stop: 10, halt: 1, try_stop: 3, await_: 2, query: 26, max_sleep: 3, ..MSG_WEIGHTS };
+    let op0 = mixed_ops(base0, vec![(20, reg_op(1, [6, 1, 4, 1, 1, 5, 2])), (6, msg_op(1, 1, ctx_work(2, 4, 0)))]);
+    let base_n = OpWeights { send: 6, call: 8, ping: 2, convert: 6, yield_: 6, sleep: 10, give: 2, drop: 2, stop: 4, halt: 2, try_stop: 2, await_: 10, query: 40, max_sleep: 3, ..MSG_WEIGHTS };
+    let opn = client_op(base_n);
+    (spawn, cause, 1usize..=3)
+        .prop_flat_map(move |(spawn, cause, n)| {
+            let owning = spawn.owning();
+            (
+                Just(spawn),
+                Just(cause),
+                grants(n, owning, 3),
+                vec(op0.clone(), 3..=max_ops),
+                vec(vec(opn.clone(), 2..=max_ops), (n - 1)..=(n - 1)),
+                schedule(if big { 96 } else { 48 }),
+            )
+        })
+        .prop_map(|(spawn, cause, mut grants, c0, mut rest, schedule)| {
+            let mut faults = vec![];
+            match cause {
+                Cause::StartFail(how) => faults.push(Fault::StartFail { actor: 0, inc: 0, how }),
+                Cause::HandlerPanic(kth) => faults.push(Fault::HandlerPanic { actor: 0, kth }),
+                Cause::Cancel(j) => faults.push(Fault::CancelActor { actor: 0, before_poll: j }),
+                _ => {}
+            }
+            grants.push(Grant { client: 0, actor: 0, kind: HKind::WeakAddr });
+            let mut clients = vec![c0];
+            clients.append(&mut rest);
+            finalize(Case { family: Family::C14, actors: one_actor(spawn, Behavior::default()), default_beh: vec![], grants, clients, faults, schedule, settle: 0 })
+        })
+        .boxed()
+}
+
+pub fn c08(big: bool) -> BoxedStrategy<Case> {
+    let max_ops = if big { 6 } else { 4 };
+    // handles come from the registry operations themselves
+    let base = OpWeights { send: 4, call: 6, ping: 2, convert: 0, yield_: 10, sleep: 6, give: 0, drop: 6, stop: 12, halt: 3, try_stop: 0, await_: 3, max_sleep: 3, ..MSG_WEIGHTS };
+    let op = mixed_ops(base, vec![(50, reg_op(2, [10, 2, 5, 2, 3, 5, 4])), (6, msg_op(1, 1, ctx_work(1, 5, 0)))]);
+    let nested = prop_oneof![6 => Just(false), 1 => Just(true)];
+    let pre = prop_oneof![2 => Just(None), 1 => proptest::option::of(mailbox()).prop_map(Some)];
+    (1usize..=4, nested, pre)
+        .prop_flat_map(move |(n, nested, pre)| (Just(nested), Just(pre), vec(vec(op.clone(), 1..=max_ops), n..=n), schedule(if big { 128 } else { 64 })))
+        .prop_map(|(nested, pre, clients, schedule)| {
+            let mut default_beh = vec![Behavior::default(), Behavior::default()];
+            if nested {
+                // the default instance of service 0 uses service 1 when it starts
+                default_beh[0].started.push(Step::Lookup(1));
+            }
+            let mut actors = vec![];
+            let mut grants = vec![];
+            if let Some(builder) = pre {
+                actors.push(ActorSpec { kind: 0, spawn: SpawnSpec::Register { builder }, parent: None, beh: Behavior::default(), peer: None });
+                grants.push(Grant { client: 0, actor: 0, kind: HKind::Addr });
+            }
+            finalize(Case { family: Family::C08, actors, default_beh, grants, clients, faults: vec![], schedule, settle: 0 })
+        })
+        .boxed()
+}
+
 pub fn strategy(family: Family, big: bool) -> BoxedStrategy<Case> {
     match family {
         Family::C01 => c01(big),
@@ -863,10 +936,12 @@ pub fn strategy(family: Family, big: bool) -> BoxedStrategy<Case> {
         Family::C04 => c04(big),
         Family::C05 => c05(big),
         Family::C07 => c07(big),
+        Family::C08 => c08(big),
         Family::C10 => c10(big),
         Family::C11 => c11(big),
         Family::C12 => c12(big),
         Family::C13 => c13(big),
+        Family::C14 => c14(big),
         Family::C15 => c15(big),
         Family::C16 => c16(big),
         Family::C17 => c17(big),
